@@ -35,7 +35,7 @@ MC_INVARIANTS = ["ChooseLaws", "ChooseEarlyReturn", "RationalLaw", "FieldLagrang
 def params(tr):
     if tr == "quick":
         return dict(MaxN=6, VecN=8, FullMax=3000, nsample=4, RecN=8, rec_reps=2, DkgN=5, dkg_reps=2, ps_all_subsets_n=5, ps_sample=10, workers=8)
-    return dict(MaxN=6, VecN=8, FullMax=120000, nsample=12, RecN=8, rec_reps=12, DkgN=6, dkg_reps=12, ps_all_subsets_n=6, ps_sample=0, workers=8)
+    return dict(MaxN=6, VecN=8, FullMax=120000, nsample=12, RecN=8, rec_reps=8, DkgN=6, dkg_reps=8, ps_all_subsets_n=6, ps_sample=0, workers=8)
 
 
 def tla_seq(xs):
@@ -91,7 +91,7 @@ def rec_subsets(n, t, rng):
 
 
 def build_job(p, choose, lag, dkgc, rng):
-    job = dict(workers=p["workers"], seed=rng.randrange(1 << 30), timeout_ms=120000)
+    job = dict(workers=p["workers"], seed=rng.randrange(1 << 30), timeout_ms=60000)
     job["choose"] = [dict(n=c["n"], k=c["k"]) for c in choose]
     job["lag"] = [dict(pts=c["pts"], i=c["i"], num=c["num"], den=c["den"]) for c in lag]
     rec = []
@@ -200,9 +200,9 @@ def execute(drv, job, wd, modelp, name, retry_unusable=True):
     for k, v in want.items():
         if got.get(k, 0) != v:
             raise vlib.CheckError("algebra driver returned %d %s records, expected %d" % (got.get(k, 0), k, v))
-    # load-sensitive part: a DKG that timed out (120 s for a run that takes milliseconds) is re-run once alone
+    # load-sensitive part: a DKG that timed out (60 s for a run that takes milliseconds) is re-run once alone (systemic timeouts are not)
     unusable = [i for i, r in enumerate(recs) if r["k"] == "dkg" and (r["timeout"] or r["harness"])]
-    if unusable and retry_unusable:
+    if unusable and len(unusable) <= 3 and retry_unusable:
         frags = job_fragments(job)
         for i in unusable:
             log("re-running unusable DKG case alone: %s" % json.dumps(frags[i])[:300])
@@ -224,12 +224,18 @@ def execute(drv, job, wd, modelp, name, retry_unusable=True):
     if len(ends) != 1 or ends[0]["n"] != len(recs):
         raise vlib.CheckError("trace validation did not reach the end of the %d records: %s" % (len(recs), tr.out[-1500:]))
     bad = [o for (t, o) in tr.prints if t == "BAD"]
-    if bad:
-        byid = {r["id"]: r for r in recs}
-        raise vlib.CheckError("harness results not usable (%d): %s" % (len(bad), "; ".join(
-            "%s [%s]" % (b["what"], json.dumps(byid.get(b["id"], {}))[:400]) for b in bad[:3])))
     viols = [o for (t, o) in tr.prints if t == "VIOL"]
     drifts = [o for (t, o) in tr.prints if t == "DRIFT"]
+    if bad:
+        byid = {r["id"]: r for r in recs}
+        msg = "harness results not usable (%d): %s" % (len(bad), "; ".join(
+            "%s [%s]" % (b["what"], json.dumps(byid.get(b["id"], {}))[:400]) for b in bad[:3]))
+        badids = {b["id"] for b in bad}
+        viols = [v for v in viols if v["id"] not in badids]
+        if not viols:
+            raise vlib.CheckError(msg)
+        # monitors that are false on OTHER, usable records of real behaviour stand on their own
+        log("WARNING " + msg)
     return recs, tr, viols, drifts
 
 
